@@ -74,6 +74,35 @@ func c37Run(t *testing.T, r *verifsim.Run) {
 			Deliver: func() bool { return d.NotifyDKGStarted(new(big.Int).Set(s)) },
 		})
 	}
+	cfg.MakeBurst = func(base uint64, n int) []verifadapt.C37Event {
+		var out []verifadapt.C37Event
+		for i := 0; i < n; i++ {
+			b := make([]byte, 24)
+			for j := 0; j < 24; j += 8 {
+				v := verifsim.Mix(base, uint64(i*8+j/8+1))
+				for k := 0; k < 8; k++ {
+					b[j+k] = byte(v >> (8 * uint(k)))
+				}
+			}
+			b[0] |= 0x80
+			s := new(big.Int).SetBytes(b)
+			dup := false
+			for _, o := range seeds {
+				if o.Cmp(s) == 0 {
+					dup = true
+				}
+			}
+			if dup {
+				continue
+			}
+			seeds = append(seeds, s)
+			out = append(out, verifadapt.C37Event{
+				Desc:    "seed=0x" + s.Text(16),
+				Deliver: func() bool { return d.NotifyDKGStarted(new(big.Int).Set(s)) },
+			})
+		}
+		return out
+	}
 	r.Logf("kind=%s period=%v events=%d", cfg.Func, cfg.Period, len(cfg.Events))
 	for i, e := range cfg.Events {
 		r.Logf("event %d: %s", i, e.Desc)
